@@ -127,3 +127,18 @@ Definition noise : wmsg :=
    forged claim or by noise (positions, hence sequence numbers, stay the same) *)
 Definition claims_differ (m m' : wmsg) : Prop :=
   m = m' \/ (forged_claim m = true /\ (forged_claim m' = true \/ m' = noise)).
+
+(* ---------------------------------------------------------------- vocabulary of the theorems *)
+(* the stream exists and a poll of it finds nothing more to yield *)
+Definition drained (w : world) : Prop :=
+  match w_ph w with
+  | PhReady st => exists st', ss_poll (ss_fuel st) st None = Some (RPending, st')
+  | _ => False
+  end.
+
+(* the run falls in a known deviation class:
+   release_buffered   — SignalStream::new found a NameOwnerChanged *without new owner* buffered in its join
+                        when the lookup answer arrived, and dropped it (the flag w_lost of the model);
+   dbus_iface_forgery — [forgeable] above *)
+Definition Known_C32 (cf : cfg) (h : list wmsg) (sched : list action) : Prop :=
+  w_lost (run cf h sched) = true \/ forgeable cf h = true.
